@@ -5,7 +5,7 @@ import Cellml.Units.Worklist
 
     The pattern tables of harness/code_specs/unitdefs.py bind every python leaf of the two functions (dict access on the
     attribute dicts of `<unit>` elements, the `%`-formats that build the pint expression, the table `UNIT_PREFIXES`,
-    `str.strip` / `str.isnumeric` / `int`, the etree queries, the `UnitStore` methods, the deque operations) to one
+    `float`, the etree queries, the `UnitStore` methods, the deque operations) to one
     of the definitions below. Core Lean only. -/
 
 namespace Cellml.Tie.PUnitDefs
@@ -76,6 +76,24 @@ structure PintDef where
   factors : List UExpr
 deriving Repr, DecidableEq
 
+/-- a python `float` object, as far as `== 0` / `!= 0` can see it -/
+inductive PyFloat where
+  | nan
+  | inf
+  /-- a finite double; the rational is zero exactly when the double is -/
+  | fin (q : Rat)
+deriving Repr, DecidableEq
+
+/-- the python literal `0` compared with a float: `0.0` -/
+instance : OfNat PyFloat 0 := ⟨.fin 0⟩
+
+/-- python `==` on floats: `nan` equals nothing (not even itself) -/
+instance : BEq PyFloat where
+  beq
+    | .fin a, .fin b => a == b
+    | .inf, .inf => true
+    | _, _ => false
+
 namespace Pint
 
 /-- `'(%s * %s)' % (a, b)`: the two uses in the function differ by the types of their arguments -/
@@ -106,18 +124,16 @@ def floatStr (p : String) : String :=
 def prefixTableStr (p : String) : Except PyErr String :=
   if (Cellml.Gen.unitPrefixes.lookup p).isSome then .ok (floatStr p) else .error ⟨"KeyError"⟩
 
-/-- `s.strip()` -/
-def strip (s : String) : String := String.ofList (Decimal.trimList s.toList)
-
-/-- `s.isnumeric()` (ASCII digits; the model's `offsetRejected` has the same reading) -/
-def isNumeric (s : String) : Bool := !s.toList.isEmpty && s.toList.all Char.isDigit
-
-/-- `int(s)` for a text of digits with optional surrounding white space; python raises `ValueError` otherwise, the
-    stand-in returns a non-zero number there (total) -/
-def int (s : String) : Int :=
-  match Decimal.digitsToNat (Decimal.trimList s.toList) with
-  | some n => n
-  | none => 1
+/-- `float(s)`: CPython's conversion of ASCII text (`Units.floatText`: white space stripped, `inf` / `nan`, decimal
+    literals with PEP 515 underscores; `ValueError` for anything else), rounded to binary64 as far as a comparison with
+    zero can see (`Units.roundsToZero`: the nearest double is zero exactly for `|value| ≤ 2^-1075`; any other value is
+    kept as it is and stands for its non-zero double) -/
+def float (s : String) : Except PyErr PyFloat :=
+  match floatText s with
+  | none => .error ⟨"ValueError"⟩
+  | some .nan => .ok .nan
+  | some .inf => .ok .inf
+  | some (.dec q) => .ok (.fin (if roundsToZero q then 0 else q))
 
 end Pint
 
